@@ -18,6 +18,7 @@ Statement forms (tuples):
   ('awaitsub', name, args_src, result_name|None)
 """
 import re
+import ast
 import random
 from collections import Counter
 
@@ -548,10 +549,39 @@ class Ref:
         return tuple(fp)
 
 
+class _IfExpSnapshot(ast.NodeTransformer):
+    """`a if c else b` with a run-time condition is a multiplexer: its result is a new value, not an alias of the
+    selected operand (a later write to a variable / array element used as operand must not show through).  Python's own
+    conditional expression would return the model object itself, so it is routed through _ifx in the reference."""
+
+    def visit_IfExp(self, node):
+        self.generic_visit(node)
+        for sub in ast.walk(node):
+            if isinstance(sub, (ast.Yield, ast.YieldFrom, ast.Await)):
+                return node
+
+        def lam(body):
+            return ast.Lambda(args=ast.arguments(posonlyargs=[], args=[], kwonlyargs=[], kw_defaults=[], defaults=[]), body=body)
+        return ast.Call(func=ast.Name(id='_ifx', ctx=ast.Load()), args=[node.test, lam(node.body), lam(node.orelse)], keywords=[])
+
+
+def _ifx(c, a, b):
+    if isinstance(c, (bool, int)):
+        return a() if c else b()            # compile-time condition: plain Python semantics (the operand itself)
+    ra, rb = a(), b()
+    if ra is rb:
+        return ra                           # both operands are the same object: the compiler returns that object
+    r = ra if c else rb
+    if isinstance(r, MVal) or not hasattr(r, '_mv'):
+        return r
+    return MVal(r._mv())
+
+
 def make_ref_factory(spec):
     src = render_ref(spec)
-    glb = {}
-    exec(compile(src, '<reference rendering>', 'exec'), glb)
+    glb = {'_ifx': _ifx}
+    tree = ast.fix_missing_locations(_IfExpSnapshot().visit(ast.parse(src)))
+    exec(compile(tree, '<reference rendering>', 'exec'), glb)
     build = glb['build']
     return (lambda: Ref(spec, build)), src
 
